@@ -26,22 +26,26 @@ func sortNaturalFilter(array []any, key any) any {
 	switch {
 	case reflect.ValueOf(array).Len() == 0:
 	case key != nil:
+		keyName := fmt.Sprint(key)
 		sort.Sort(keySortable{result, func(m any) string {
 			rv := reflect.ValueOf(m)
-			if rv.Kind() != reflect.Map {
+			if rv.Kind() != reflect.Map || rv.Type().Key().Kind() != reflect.String {
 				return ""
 			}
-			ev := rv.MapIndex(reflect.ValueOf(key))
-			if ev.CanInterface() {
+			ev := rv.MapIndex(reflect.ValueOf(keyName).Convert(rv.Type().Key()))
+			if ev.IsValid() && ev.CanInterface() {
 				if s, ok := ev.Interface().(string); ok {
 					return strings.ToLower(s)
 				}
 			}
 			return ""
 		}})
-	case reflect.TypeOf(array[0]).Kind() == reflect.String:
+	case array[0] != nil && reflect.TypeOf(array[0]).Kind() == reflect.String:
 		sort.Sort(keySortable{result, func(s any) string {
-			return strings.ToUpper(s.(string))
+			if s, ok := s.(string); ok {
+				return strings.ToUpper(s)
+			}
+			return ""
 		}})
 	}
 	return result
